@@ -20,16 +20,18 @@ import sympy  # noqa: E402
 from sympy.physics.quantum import Dagger  # noqa: E402
 from sympy.physics.quantum.boson import BosonOp  # noqa: E402
 from sympy.physics.quantum.fermion import FermionOp  # noqa: E402
+from sympy.physics.quantum import pauli  # noqa: E402
 
 R = sympy.Rational
 
 
 class Space:
-    def __init__(self, nbos, nfer, K):
-        self.nbos, self.nfer, self.K = nbos, nfer, K
+    def __init__(self, nbos, nfer, K, nspin=0):
+        self.nbos, self.nfer, self.K, self.nspin = nbos, nfer, K, nspin
         self.bos = [BosonOp("b%d" % i) for i in range(nbos)]
+        self.spin = [pauli.SigmaMinus("s%d" % i) for i in range(nspin)]
         self.fer = [FermionOp("f%d" % i) for i in range(nfer)]
-        dims = [K] * nbos + [2] * nfer
+        dims = [K] * nbos + [2] * nspin + [2] * nfer
         self.dims = dims
         self.dim = int(np.prod(dims)) if dims else 1
         a = np.diag(np.sqrt(np.arange(1, K)), 1)
@@ -45,13 +47,17 @@ class Space:
         for i in range(nbos):
             ms = [np.eye(d) for d in dims]
             ms[i] = a
-            self.mats[self.bos[i].name] = kron(ms)
+            self.mats[str(self.bos[i].name)] = kron(ms)
+        for j in range(nspin):  # spins commute with every other mode: no Jordan-Wigner string
+            ms = [np.eye(d) for d in dims]
+            ms[nbos + j] = sm
+            self.mats[str(self.spin[j].name)] = kron(ms)
         for j in range(nfer):
             ms = [np.eye(d) for d in dims]
             for l in range(j):
-                ms[nbos + l] = sz
-            ms[nbos + j] = sm
-            self.mats[self.fer[j].name] = kron(ms)
+                ms[nbos + nspin + l] = sz
+            ms[nbos + nspin + j] = sm
+            self.mats[str(self.fer[j].name)] = kron(ms)
         self.states = list(itertools.product(*[range(d) for d in dims]))
 
     def tomat(self, e):
@@ -63,11 +69,24 @@ class Space:
 
         def rec(x):
             if isinstance(x, (BosonOp, FermionOp)):
-                m = self.mats[x.name]
+                m = self.mats[str(x.name)]
                 return m if x.is_annihilation else m.conj().T
             if isinstance(x, NumberOperator):
-                m = self.mats[x.name]
+                m = self.mats[str(x.name)]
                 return m.conj().T @ m
+            if isinstance(x, pauli.SigmaMinus):
+                return self.mats[str(x.name)]
+            if isinstance(x, pauli.SigmaPlus):
+                return self.mats[str(x.name)].conj().T
+            if isinstance(x, pauli.SigmaZ):  # n = sigma_+ sigma_- = (sigma_z + 1) / 2
+                m = self.mats[str(x.name)]
+                return 2 * (m.conj().T @ m) - np.eye(dim)
+            if isinstance(x, pauli.SigmaX):
+                m = self.mats[str(x.name)]
+                return m + m.conj().T
+            if isinstance(x, pauli.SigmaY):
+                m = self.mats[str(x.name)]
+                return -1j * (m.conj().T - m)
             if isinstance(x, NumberOrderedForm):
                 return rec(x.as_expr())
             if x.is_Add:
@@ -89,7 +108,7 @@ class Space:
                     with np.errstate(divide="ignore"):
                         inv = np.where(np.abs(d) > 1e-12, 1 / d, np.inf)
                     return np.linalg.matrix_power(np.diag(inv), int(-p))
-            if not x.has(BosonOp, FermionOp, NumberOperator):
+            if not x.has(BosonOp, FermionOp, NumberOperator, pauli.SigmaOpBase):
                 return complex(x) * np.eye(dim, dtype=complex)
             raise ValueError("cannot convert %s" % x)
         return rec(e)
@@ -131,9 +150,29 @@ def gen_case(rng):
     return dict(nbos=nbos, nfer=nfer, terms=terms, inter=inter, K=7, N=2)
 
 
+def gen_spin_case(rng):
+    """one spin-1/2 mode next to 1-2 fermion modes (or a boson and a fermion); always a spin flip and a term LINEAR in a
+    fermion operator, so that products of sigma_- with an odd number of fermion operators arise inside the perturbation
+    theory (spins commute with fermions: no sign)"""
+    nbos = rng.choice([0, 0, 1])
+    nfer = 1 if nbos else rng.choice([1, 2])
+    terms = [["sx", 0, [rng.randint(1, 3), rng.randint(1, 3)]], ["flin", rng.randrange(nfer), [rng.randint(1, 3), rng.randint(2, 4)]]]
+    templates = [("sxn", 0, j) for j in range(nfer)] + [("szf", 0, j) for j in range(nfer)]
+    for i in range(nfer):
+        for j in range(i + 1, nfer):
+            templates += [("hop", i, j), ("pair", i, j)]
+    for i in range(nbos):
+        templates += [("bdisp", i), ("bsx", i, 0)]
+    rng.shuffle(templates)
+    for t in templates[: rng.randint(1, 2)]:
+        terms.append(list(t) + [[rng.randint(1, 3), rng.randint(1, 3)]])
+    return dict(nbos=nbos, nspin=1, nfer=nfer, terms=terms, inter=None, K=6, N=2)
+
+
 def build(case, sp):
     b, f = sp.bos, sp.fer
-    H0 = sum((OMEGAS[k] * Dagger(o) * o for k, o in enumerate(b + f)), sympy.S.Zero)
+    spn = sp.spin
+    H0 = sum((OMEGAS[k] * Dagger(o) * o for k, o in enumerate(b + spn + f)), sympy.S.Zero)
     if case["inter"]:
         i, j, c = case["inter"]
         H0 = H0 + R(*c) * Dagger(f[i]) * f[i] * Dagger(f[j]) * f[j]
@@ -149,6 +188,16 @@ def build(case, sp):
             H1 += c * (f[t[1]] * f[t[2]] + Dagger(f[t[2]]) * Dagger(f[t[1]]))
         elif k == "bn":
             H1 += c * (b[t[1]] + Dagger(b[t[1]])) * Dagger(f[t[2]]) * f[t[2]]
+        elif k == "sx":
+            H1 += c * (spn[t[1]] + Dagger(spn[t[1]]))
+        elif k == "flin":
+            H1 += c * (f[t[1]] + Dagger(f[t[1]]))
+        elif k == "sxn":
+            H1 += c * (spn[t[1]] + Dagger(spn[t[1]])) * Dagger(f[t[2]]) * f[t[2]]
+        elif k == "szf":
+            H1 += c * Dagger(spn[t[1]]) * spn[t[1]] * (f[t[2]] + Dagger(f[t[2]]))
+        elif k == "bsx":
+            H1 += c * (b[t[1]] * Dagger(spn[t[2]]) + Dagger(b[t[1]]) * spn[t[2]])
         elif k == "bhop":
             H1 += c * (Dagger(b[t[1]]) * Dagger(f[t[2]]) * f[t[3]] + Dagger(f[t[3]]) * f[t[2]] * b[t[1]])
     return H0, H1
@@ -157,7 +206,7 @@ def build(case, sp):
 def check_case(case, tol=1e-7):
     from pymablock import block_diagonalize
     from pymablock.series import zero, one
-    sp = Space(case["nbos"], case["nfer"], case["K"])
+    sp = Space(case["nbos"], case["nfer"], case["K"], case.get("nspin", 0))
     H0, H1 = build(case, sp)
     g = sympy.Symbol("g", real=True)
     fails = []
@@ -311,7 +360,7 @@ def oracle_fock(ctx, ncases=None, N=None):
     n = ncases or ctx.n(6, 80)
     cases = []
     for i in range(n):
-        c = gen_matrix_case(ctx.rng) if i % 3 == 2 else gen_case(ctx.rng)
+        c = gen_matrix_case(ctx.rng) if i % 3 == 2 else (gen_spin_case(ctx.rng) if i % 3 == 0 else gen_case(ctx.rng))
         c["N"] = N or ctx.n(2, 3)
         cases.append(c)
     if ctx.quick:
@@ -324,7 +373,7 @@ def oracle_fock(ctx, ncases=None, N=None):
     import json
     distinct = {json.dumps(c, sort_keys=True) for c in cases}
     return dict(evaluations=len(cases), nontrivial=len(distinct),
-                rule="random second-quantised Hamiltonians (0-1 boson modes truncated at 7 quanta, 1-3 fermion modes, number-conserving H_0 with incommensurate rational frequencies and optional density interaction, 2-4 perturbation terms incl. pairing and boson-assisted hopping), orders <= N; operator-valued H_tilde/U/U† converted to matrices (Jordan-Wigner, Fock truncation) and compared with the matrix computation on states >= order+1 below the truncation edge, plus U†U=1 and U†HU=H_tilde there",
+                rule="random second-quantised Hamiltonians (0-1 boson modes truncated at 7 quanta, 1-3 fermion modes; every third case a spin-1/2 mode next to fermions/bosons with a spin flip and a fermion-linear term; number-conserving H_0 with incommensurate rational frequencies and optional density interaction, 2-4 perturbation terms incl. pairing and boson-assisted hopping), orders <= N; operator-valued H_tilde/U/U† converted to matrices (Jordan-Wigner, Fock truncation) and compared with the matrix computation on states >= order+1 below the truncation edge, plus U†U=1 and U†HU=H_tilde there",
                 samples=[dict(c) for c in cases[:2]], failures=fails)
 
 
